@@ -180,6 +180,15 @@ func Bootstrap(cfg Config) func(n *Node, ctx sdk.Context) {
 			run(tftypes.NewMsgMint(Actor(i).String(), coin(fmt.Sprintf("factory/%s/boot", Actor(i)), 1_000_000_000)))
 			run(lockuptypes.NewMsgLockTokens(Actor(i), time.Hour, sdk.NewCoins(coin("foo", 1_000_000+int64(i)))))
 		}
+		// one factory denom whose admin has been renounced (the empty admin: reachable through contract bindings and
+		// genesis, the message's ValidateBasic refuses it): its record must survive export/import as it is
+		{
+			bz, err := (&tftypes.DenomAuthorityMetadata{Admin: ""}).Marshal()
+			if err != nil {
+				panic(err)
+			}
+			a.TokenFactoryKeeper.GetDenomPrefixStore(ctx, fmt.Sprintf("factory/%s/boot", Actor(NActors-1))).Set([]byte(tftypes.DenomAuthorityMetadataKey), bz)
+		}
 		if err := a.SuperfluidKeeper.AddNewSuperfluidAsset(ctx, sftypes.SuperfluidAsset{Denom: gammtypes.GetPoolShareDenom(p2), AssetType: sftypes.SuperfluidAssetTypeLPShare}); err != nil {
 			panic(err)
 		}
